@@ -297,6 +297,15 @@ func (u *Unit) allocatedAt(v Term, t types.Type, alloc Term, depth int) Term {
 	if depth > 3 {
 		return "true"
 	}
+	if b, ok := types.Unalias(t).Underlying().(*types.Basic); ok && depth <= 1 {
+		// machine integers: a value of a signed integer type lies in the range of that type
+		switch b.Kind() {
+		case types.Int, types.Int64:
+			return and(app("<=", "(- 9223372036854775808)", v), app("<=", v, "9223372036854775807"))
+		case types.Int32:
+			return and(app("<=", "(- 2147483648)", v), app("<=", v, "2147483647"))
+		}
+	}
 	switch u.D.SortOf(t) {
 	case "Ref":
 		return app("<", app("rid", v), alloc)
